@@ -321,6 +321,15 @@ def main(argv=None):
         else:
             unknown.append((key, lst))
 
+    # minimise one signature per distinct oracle id first, then the rest
+    seen_or = set()
+    first, rest = [], []
+    for key, lst in unknown:
+        oid = key.split('|', 1)[0]
+        (rest if oid in seen_or else first).append((key, lst))
+        seen_or.add(oid)
+    unknown = first + rest
+
     for _id, (e, cnt) in sorted(known_hits.items()):
         print('KNOWN-FINDING: property=%s %s (id=%s)' % (prop, e.get('description', ''), e.get('id')))
 
